@@ -76,6 +76,8 @@ def cases(draw):
             'tests_pattern': draw(st.sampled_from(TESTS_PATTERNS)),
             'file_pattern': draw(st.sampled_from(FILE_PATTERNS)),
             'module': mods,
+            # --usecompiled with source files that have (legacy, same-directory) bytecode beside them: still one module each
+            'usecompiled': draw(st.integers(0, 4)) == 0,
             'order_seeds': [draw(st.integers(0, 10 ** 6)), draw(st.integers(0, 10 ** 6))],
             'create_seed': draw(st.integers(0, 10 ** 6))}
 
@@ -187,6 +189,13 @@ class Discover(Part):
             for nm in case.get('ignore_dir') or ():
                 args += ['--ignore_dir', nm]
                 labels.append('--ignore_dir')
+            has_bytecode = any(f.endswith(('.pyc', '.pyo')) for _, n in fstree.iter_dirs(case['tree']) for f in n['files'])
+            if case.get('usecompiled') and not has_bytecode:
+                import py_compile
+                for f in want:
+                    py_compile.compile(f, cfile=f + 'c', doraise=True)
+                args += ['--usecompiled']
+                labels.append('--usecompiled+bytecode-beside-source')
             if case.get('positional'):
                 args += list(case['positional'])
                 labels.append('positional-filters' + (':dot' if case['positional'][0] == '.' else '')
